@@ -1,7 +1,470 @@
+// oracle.go: the four properties stated on the implementation's snapshots (independent of the Lean model).
 package main
 
-import "verifharness/lib/corr"
+import (
+	"bufio"
+	"encoding/json"
+	"fmt"
+	"math/big"
+	"os"
+	"strconv"
+	"strings"
+
+	"verifharness/lib/corr"
+)
+
+// ---------------------------------------------------------------- parsed snapshot line
+
+type rBA struct {
+	b                            int
+	size, price, cv, used, offer int64
+}
+type rAlloc struct {
+	present    bool
+	cpPresent  bool
+	owner      int
+	exp        int64
+	wp, cp     int64
+	mtc, mb    int64
+	bas        []rBA
+}
+type rSP struct {
+	present               bool
+	offers, stake, reward int64
+	dead                  bool
+}
+type rBlob struct {
+	present              bool
+	cap, allocated, used int64
+	dead                 bool
+	price                int64
+	sp                   rSP
+}
+type rState struct {
+	now     int64
+	wallet  int64
+	allocs  map[int]*rAlloc
+	blobs   map[int]*rBlob
+	vals    map[int]*rSP
+	rps     map[int]int64
+	clients map[int]int64
+}
+
+func p64(s string) int64 { n, _ := strconv.ParseInt(s, 10, 64); return n }
+
+func parseSP(tok string) rSP {
+	if tok == "S:-" {
+		return rSP{}
+	}
+	f := strings.Split(tok, ":")
+	if len(f) != 5 {
+		return rSP{}
+	}
+	return rSP{true, p64(f[1]), p64(f[2]), p64(f[3]), f[4] == "1"}
+}
+
+// parseOut splits "status obs... # render" and parses the render.
+func parseOut(out string) (status []string, st *rState, ok bool) {
+	parts := strings.SplitN(out, " # ", 2)
+	status = strings.Fields(parts[0])
+	if len(parts) != 2 {
+		return status, nil, false
+	}
+	secs := strings.Split(parts[1], "|")
+	if len(secs) != 6 {
+		return status, nil, false
+	}
+	st = &rState{allocs: map[int]*rAlloc{}, blobs: map[int]*rBlob{}, vals: map[int]*rSP{}, rps: map[int]int64{}, clients: map[int]int64{}}
+	for _, t := range strings.Fields(secs[0]) {
+		if strings.HasPrefix(t, "W=") {
+			st.wallet = p64(t[2:])
+		}
+		if strings.HasPrefix(t, "T=") {
+			st.now = p64(t[2:])
+		}
+	}
+	for _, t := range strings.Fields(secs[1]) {
+		// A<k>:gone:cp=<n>  |  A<k>:<owner>:<exp>:<wp>:<cp>:<mtc>:<mb>[...]
+		head := t
+		body := ""
+		if i := strings.IndexByte(t, '['); i >= 0 {
+			head, body = t[:i], strings.TrimSuffix(t[i+1:], "]")
+		}
+		f := strings.Split(head, ":")
+		k, _ := strconv.Atoi(strings.TrimPrefix(f[0], "A"))
+		a := &rAlloc{}
+		if len(f) == 3 && f[1] == "gone" {
+			cp := strings.TrimPrefix(f[2], "cp=")
+			if cp != "-" {
+				a.cpPresent, a.cp = true, p64(cp)
+			}
+			st.allocs[k] = a
+			continue
+		}
+		if len(f) != 7 {
+			return status, nil, false
+		}
+		a.present = true
+		a.owner, _ = strconv.Atoi(f[1])
+		a.exp, a.wp = p64(f[2]), p64(f[3])
+		if f[4] != "-" {
+			a.cpPresent, a.cp = true, p64(f[4])
+		}
+		a.mtc, a.mb = p64(f[5]), p64(f[6])
+		if body != "" {
+			for _, b := range strings.Split(body, ";") {
+				g := strings.Split(b, ",")
+				if len(g) != 6 {
+					return status, nil, false
+				}
+				bi, _ := strconv.Atoi(g[0])
+				a.bas = append(a.bas, rBA{bi, p64(g[1]), p64(g[2]), p64(g[3]), p64(g[4]), p64(g[5])})
+			}
+		}
+		st.allocs[k] = a
+	}
+	toks := strings.Fields(secs[2])
+	for n := 0; n+1 < len(toks); n += 2 {
+		f := strings.Split(toks[n], ":")
+		i, _ := strconv.Atoi(strings.TrimPrefix(f[0], "B"))
+		b := &rBlob{sp: parseSP(toks[n+1])}
+		if len(f) == 6 {
+			b.present = true
+			b.cap, b.allocated, b.used, b.dead, b.price = p64(f[1]), p64(f[2]), p64(f[3]), f[4] == "1", p64(f[5])
+		}
+		st.blobs[i] = b
+	}
+	toks = strings.Fields(secs[3])
+	for n := 0; n+1 < len(toks); n += 2 {
+		i, _ := strconv.Atoi(strings.TrimPrefix(toks[n], "V"))
+		sp := parseSP(toks[n+1])
+		st.vals[i] = &sp
+	}
+	for _, t := range strings.Fields(secs[4]) {
+		f := strings.Split(t, ":")
+		j, _ := strconv.Atoi(strings.TrimPrefix(f[0], "R"))
+		st.rps[j] = p64(f[1])
+	}
+	for _, t := range strings.Fields(secs[5]) {
+		f := strings.Split(t, ":")
+		j, _ := strconv.Atoi(strings.TrimPrefix(f[0], "C"))
+		st.clients[j] = p64(f[1])
+	}
+	return status, st, true
+}
+
+// liabilities: everything the contract records as owed.
+func (s *rState) liabilities() *big.Int {
+	l := new(big.Int)
+	add := func(v int64) { l.Add(l, big.NewInt(v)) }
+	for _, a := range s.allocs {
+		if a.present {
+			add(a.wp)
+		}
+		if a.cpPresent {
+			add(a.cp)
+		}
+	}
+	for _, b := range s.blobs {
+		if b.sp.present {
+			add(b.sp.stake)
+			add(b.sp.reward)
+		}
+	}
+	for _, v := range s.vals {
+		if v.present {
+			add(v.stake)
+			add(v.reward)
+		}
+	}
+	for _, r := range s.rps {
+		add(r)
+	}
+	return l
+}
+
+// ---------------------------------------------------------------- known findings (only to choose WHICH violation of a
+// history to report when it has several: an unlisted one first, so that a listed finding never hides a new one)
+
+var knownSigs = func() map[string]bool {
+	m := map[string]bool{}
+	f, err := os.Open("/verif/known_findings.jsonl")
+	if err != nil {
+		return m
+	}
+	defer f.Close()
+	sc := bufio.NewScanner(f)
+	sc.Buffer(make([]byte, 1<<20), 1<<24)
+	for sc.Scan() {
+		var j struct {
+			Signature string `json:"signature"`
+			Status    string `json:"status"`
+		}
+		if json.Unmarshal(sc.Bytes(), &j) == nil && j.Signature != "" && (j.Status == "" || j.Status == "known") {
+			m[j.Signature] = true
+		}
+	}
+	return m
+}()
+
+type viol struct {
+	sig, msg string
+	at       int
+}
+
+func closeReason(status []string) string {
+	if len(status) >= 2 {
+		return status[1]
+	}
+	return ""
+}
+
+// cause names the path of an operation for the signature (so that a finding is identified by WHAT breaks it).
+func cause(op []string, prev *rState) string {
+	switch op[0] {
+	case "upd":
+		if op[7] != "-" {
+			if b := prev.blobs[atoi(op[7])]; b != nil && b.dead {
+				return "replace-killed-blobber"
+			}
+			return "replace-blobber"
+		}
+		if op[6] != "-" {
+			return "add-blobber"
+		}
+		if op[5] == "1" || atoi64(op[4]) > 0 {
+			return "extend"
+		}
+		return "update"
+	case "kill", "shut":
+		if op[1] == "b" {
+			if b := prev.blobs[atoi(op[2])]; b != nil && b.dead {
+				return "re" + op[0] + "-blobber"
+			}
+			return op[0] + "-blobber"
+		}
+		return op[0] + "-validator"
+	case "resp":
+		return "challenge-" + op[3]
+	case "commit":
+		if atoi64(op[3]) < 0 {
+			return "delete"
+		}
+		return "upload"
+	}
+	return op[0]
+}
 
 func oracle(prop string) func(ops, outs []string) *corr.Violation {
-	return func(ops, outs []string) *corr.Violation { return nil }
+	return func(ops, outs []string) *corr.Violation {
+		var vs []viol
+		add := func(i int, sig, msg string) {
+			vs = append(vs, viol{prop + ":" + sig, fmt.Sprintf("op %d %q: %s", i, ops[i], msg), i})
+		}
+		var prev *rState
+		closed := map[int]bool{}     // allocations closed by a successful finalize/cancel
+		badCP := map[int]bool{}      // C12: allocations whose equality is already broken (report the breaking op only)
+		badAl := map[int]bool{}      // C13: blobbers whose Allocated already drifted
+		badOf := map[int]bool{}      // C13: blobbers whose TotalOffers already drifted
+		for i, line := range ops {
+			op, _ := splitOp(line)
+			if len(op) == 0 || i >= len(outs) {
+				continue
+			}
+			status, cur, ok := parseOut(outs[i])
+			if !ok {
+				if len(status) > 0 && status[0] == "bad-op" {
+					continue
+				}
+				if len(status) > 0 && (status[0] == "panic" || status[0] == "harness-panic") {
+					add(i, "panic", outs[i])
+				}
+				continue
+			}
+			if op[0] == "init" {
+				prev = cur
+				closed, badCP, badAl, badOf = map[int]bool{}, map[int]bool{}, map[int]bool{}, map[int]bool{}
+				continue
+			}
+			if prev == nil {
+				prev = cur
+				continue
+			}
+			okTx := len(status) > 0 && status[0] == "ok"
+			why := cause(op, prev)
+
+			switch prop {
+			case "C12":
+				for k, a := range cur.allocs {
+					if !a.present {
+						continue
+					}
+					var sum int64
+					for _, d := range a.bas {
+						sum += d.cv
+					}
+					if (!a.cpPresent || a.cp != sum) && !badCP[k] {
+						badCP[k] = true
+						add(i, "cp-ne-sum:"+why, fmt.Sprintf("allocation a%d: challenge pool %d (present=%v) != sum of blobbers' challenge values %d", k, a.cp, a.cpPresent, sum))
+					}
+				}
+				if (op[0] == "fin" || op[0] == "cancel") && okTx {
+					k := atoi(op[1])
+					if a := cur.allocs[k]; a != nil && (a.present || a.cpPresent) {
+						add(i, "pool-survives-close", fmt.Sprintf("allocation a%d closed but allocation present=%v challenge pool present=%v balance %d", k, a.present, a.cpPresent, a.cp))
+					}
+				}
+			case "C13":
+				sumSize, sumOffer := map[int]int64{}, map[int]int64{}
+				for _, a := range cur.allocs {
+					if a.present {
+						for _, d := range a.bas {
+							sumSize[d.b] += d.size
+							sumOffer[d.b] += d.offer
+						}
+					}
+				}
+				for bi, b := range cur.blobs {
+					if b.present && b.allocated != sumSize[bi] && !badAl[bi] {
+						badAl[bi] = true
+						add(i, "allocated-ne-sum:"+why, fmt.Sprintf("blobber b%d: allocated %d != sum of its sizes over open allocations %d", bi, b.allocated, sumSize[bi]))
+					}
+					if b.sp.present && b.sp.offers != sumOffer[bi] && !badOf[bi] {
+						badOf[bi] = true
+						add(i, "offers-ne-sum:"+why, fmt.Sprintf("blobber b%d: stake pool total offers %d != sum of its offers over open allocations %d", bi, b.sp.offers, sumOffer[bi]))
+					}
+				}
+				if okTx && (op[0] == "newa" || op[0] == "upd") {
+					// every blobber whose allocated size grew in this transaction was assigned to: must fit its capacity
+					for bi, b := range cur.blobs {
+						if pb := prev.blobs[bi]; b.present && pb != nil && pb.present && b.allocated > pb.allocated && b.allocated > b.cap {
+							add(i, "assigned-over-capacity:"+why, fmt.Sprintf("blobber b%d: allocated %d > capacity %d after assignment", bi, b.allocated, b.cap))
+						}
+					}
+				}
+				if (op[0] == "fin" || op[0] == "cancel") && !okTx && closeReason(status) == "offer-underflow" {
+					add(i, "close-cannot-release-offer", fmt.Sprintf("closing allocation a%s fails: the blobber's total offers are smaller than this allocation's offer", op[1]))
+				}
+			case "C14":
+				if op[0] == "fin" || op[0] == "cancel" {
+					k := atoi(op[1])
+					pa := prev.allocs[k]
+					if okTx {
+						if pa == nil || !pa.present {
+							add(i, "closed-twice", fmt.Sprintf("allocation a%d closed although it was not open", k))
+						} else {
+							callerIsOwner := op[2] == fmt.Sprintf("c%d", pa.owner)
+							callerIsBlobber := false
+							for _, d := range pa.bas {
+								if op[2] == fmt.Sprintf("b%d", d.b) {
+									callerIsBlobber = true
+								}
+							}
+							if op[0] == "fin" && !(callerIsOwner || callerIsBlobber) {
+								add(i, "finalize-unauthorised", "finalized by "+op[2])
+							}
+							if op[0] == "fin" && prev.now < pa.exp && cur.now < pa.exp {
+								add(i, "finalize-before-expiry", fmt.Sprintf("now %d < expiration %d", cur.now, pa.exp))
+							}
+							if op[0] == "cancel" && !callerIsOwner {
+								add(i, "cancel-unauthorised", "cancelled by "+op[2])
+							}
+							if op[0] == "cancel" && cur.now > pa.exp {
+								add(i, "cancel-after-expiry", fmt.Sprintf("now %d > expiration %d", cur.now, pa.exp))
+							}
+							// payout
+							refund := cur.clients[pa.owner] - prev.clients[pa.owner]
+							var credited, earnedCap, cost int64
+							for _, d := range pa.bas {
+								earnedCap += d.cv
+								cost += d.offer
+								if cb, pb := cur.blobs[d.b], prev.blobs[d.b]; cb != nil && pb != nil {
+									credited += cb.sp.reward - pb.sp.reward
+								}
+							}
+							chargeCap := cost/5 + int64(len(pa.bas)) // cancellation_charge 0.2 of the cost, float rounding slack 1 per blobber
+							pools := pa.wp + pa.cp
+							if refund < 0 || refund > pools {
+								add(i, "refund-exceeds-pools", fmt.Sprintf("owner received %d, pools held %d", refund, pools))
+							}
+							if credited > earnedCap+chargeCap {
+								add(i, "blobbers-overpaid", fmt.Sprintf("blobbers credited %d > challenge values %d + cancellation charge cap %d", credited, earnedCap, chargeCap))
+							}
+							if refund+credited > pools {
+								add(i, "close-pays-more-than-pools", fmt.Sprintf("refund %d + credited %d > pools %d", refund, credited, pools))
+							}
+							if refund < pools-earnedCap-chargeCap {
+								add(i, "refund-too-small", fmt.Sprintf("owner received %d < pools %d - challenge values %d - charge cap %d", refund, pools, earnedCap, chargeCap))
+							}
+							if prev.wallet-cur.wallet != refund {
+								add(i, "wallet-delta-ne-refund", fmt.Sprintf("wallet paid %d, owner received %d", prev.wallet-cur.wallet, refund))
+							}
+							if a := cur.allocs[k]; a != nil && (a.present || a.cpPresent) {
+								add(i, "not-removed", fmt.Sprintf("allocation present=%v, challenge pool present=%v after close", a.present, a.cpPresent))
+							}
+							closed[k] = true
+						}
+					}
+				}
+				// nothing touches a closed allocation any more
+				if k, touches := touched(op); touches && closed[k] && !(okTx && (op[0] == "fin" || op[0] == "cancel") && prev.allocs[k] != nil && prev.allocs[k].present) {
+					if okTx {
+						add(i, "op-on-closed-allocation-succeeds:"+op[0], fmt.Sprintf("%s on closed allocation a%d succeeded", op[0], k))
+					}
+					if outsRender(outs[i]) != outsRender(outs[i-1]) {
+						add(i, "op-on-closed-allocation-changes-state:"+op[0], fmt.Sprintf("%s on closed allocation a%d changed the state", op[0], k))
+					}
+				}
+			case "C09":
+				dl := new(big.Int).Sub(cur.liabilities(), prev.liabilities())
+				dw := big.NewInt(cur.wallet - prev.wallet)
+				if dl.Cmp(dw) > 0 {
+					add(i, "liability-grew:"+why, fmt.Sprintf("liabilities %s -> %s (delta %s) but wallet delta %s", prev.liabilities(), cur.liabilities(), dl, dw))
+				}
+				if cur.liabilities().Cmp(big.NewInt(cur.wallet)) > 0 && prev.liabilities().Cmp(big.NewInt(prev.wallet)) <= 0 {
+					add(i, "liabilities-exceed-wallet:"+why, fmt.Sprintf("liabilities %s > wallet %d", cur.liabilities(), cur.wallet))
+				}
+			}
+			prev = cur
+		}
+		if len(vs) == 0 {
+			return nil
+		}
+		pick := vs[0]
+		for _, v := range vs {
+			if !knownSigs[v.sig] {
+				pick = v
+				break
+			}
+		}
+		return &corr.Violation{Signature: pick.sig, Message: pick.msg, Ops: ops[:pick.at+1], Impl: outs[:pick.at+1]}
+	}
+}
+
+func outsRender(out string) string {
+	if i := strings.Index(out, " # "); i >= 0 {
+		// the time stamp is part of the first section; drop it
+		r := out[i+3:]
+		if j := strings.Index(r, " |"); j >= 0 {
+			f := strings.Fields(r[:j])
+			var keep []string
+			for _, t := range f {
+				if !strings.HasPrefix(t, "T=") {
+					keep = append(keep, t)
+				}
+			}
+			return strings.Join(keep, " ") + r[j:]
+		}
+		return r
+	}
+	return out
+}
+
+// touched: the allocation index an operation addresses.
+func touched(op []string) (int, bool) {
+	switch op[0] {
+	case "fin", "cancel", "wpl", "upd", "commit", "resp":
+		return atoi(op[1]), true
+	}
+	return 0, false
 }
